@@ -705,6 +705,30 @@ async fn gen_insert(env: &Env, s: &Session, rng: &mut Rng, g: &mut Gen, ops: &mu
             return;
         }
     }
+    if (7..10).contains(&c) {
+        // re-submission of a transaction that is no longer tracked (removed earlier, or never
+        // accepted): allowed by the precondition, exercises stale removal-cache entries
+        let gone: Vec<usize> = (0..s.txs.len())
+            .filter(|k| !pend.contains(k) && !park.contains(k) && s.txs[*k].nonce >= s.nonces[s.txs[*k].acct])
+            .collect();
+        if !gone.is_empty() {
+            let k = *rng.pick(&gone);
+            let i = &s.txs[k];
+            let mut costs = [0u128; N_ASSETS];
+            if let Some(c) = model_recost(s, i.kind, i.fee_asset, i.xfer) {
+                costs = c;
+            }
+            g.next_at += rng.range(1, 4);
+            ops.push(format!(
+                "insert t{k} {} {} {} {}",
+                s.nonces[i.acct],
+                fmt_vec3(&gen_vec(rng, s.bals[i.acct], [false, true, true])),
+                fmt_vec3(&gen_vec(rng, costs, [true, true, true])),
+                g.next_at
+            ));
+            return;
+        }
+    }
     let nonce: u32 = if c < 55 {
         pn
     } else if c < 72 {
